@@ -33,6 +33,11 @@ static const char* scn_desc(const scn_t* s) { static char b[200]; snprintf(b, si
 static ref_arena RA; static ref_buf IMG; static char PATH[64]; static int FD = -1; static int64_t TOTAL_ROWS;
 static void build_file(const scn_t* s) {
     rfile_t f; memset(&f, 0, sizeof f);
+    if (s->shape >= 4) {     /* large pages: 4 = a dictionary-encoded INT32 column of 70 000 values in one page (+ a plain INT64 column); 5 = two INT64 columns of 16 000 values (128 KB page bodies) */
+        f.ncols = 2; f.N = s->shape == 4 ? 70000 : 16000; f.nrg = 1; f.codec = s->codec; f.crc = true; f.dict_offset_present = true; f.pattern = 0;
+        f.col[0].ptype = s->shape == 4 ? PT_INT32 : PT_INT64; f.enc[0] = s->shape == 4 ? ENC_RLE_DICT : ENC_PLAIN; f.col[1].ptype = PT_INT64; f.enc[1] = ENC_PLAIN; if (s->shape == 5) f.pattern = 3;
+        ref_buf_free(&IMG); ref_buf_init(&IMG); ref_arena_free(&RA); static ref_coldata colsb[4]; if (rf_build(&RA, &f, &IMG, NULL, 0, NULL, colsb)) mc_harness_error("reference writer failed");
+        TOTAL_ROWS = f.N; if (FD >= 0) close(FD); FD = memfd_create("c07", 0); if (FD < 0 || write(FD, IMG.p, IMG.n) != (ssize_t)IMG.n) mc_harness_error("memfd"); snprintf(PATH, sizeof PATH, "/proc/self/fd/%d", FD); return; }
     f.ncols = s->shape == 1 ? 2 : 3; f.N = 12; f.nrg = s->shape == 2 ? 2 : 1; f.codec = s->codec; f.crc = true; f.dict_offset_present = true;
     f.col[0].ptype = PT_INT32; f.col[0].opt = 0; f.col[1].ptype = PT_INT64; f.col[1].opt = 1; f.mask[1] = 0x492; f.col[2].ptype = s->shape == 3 ? PT_BYTE_ARRAY : PT_DOUBLE; f.col[2].opt = s->shape == 3; f.mask[2] = 0x0c1;
     for (int c = 0; c < f.ncols; c++) { f.npages[c] = 2; f.page_levels[c][0] = 6; f.page_levels[c][1] = 6; f.enc[c] = (c == 1 && s->shape != 1) ? ENC_RLE_DICT : ENC_PLAIN; }
@@ -65,7 +70,7 @@ static void read_all(rd_job* j) {
             const void* data; const uint8_t* nulls; int64_t cnt; if (carquet_row_batch_column(b, i, &data, &nulls, &cnt) != CARQUET_OK) { h = mc_mix(h, 0xbad); continue; }
             h = mc_mix(h, (uint64_t)cnt); int64_t nn = 0; for (int64_t r = 0; r < cnt; r++) if (!nulls || !((nulls[r >> 3] >> (r & 7)) & 1)) nn++;
             if (nulls) h = mc_mix(h, mc_hash(nulls, (size_t)(cnt + 7) / 8, 3));
-            int pt = i == 0 ? PT_INT32 : i == 1 ? PT_INT64 : (s->shape == 3 ? PT_BYTE_ARRAY : PT_DOUBLE);
+            int pt = s->shape == 5 ? PT_INT64 : i == 0 ? PT_INT32 : i == 1 ? PT_INT64 : (s->shape == 3 ? PT_BYTE_ARRAY : PT_DOUBLE);
             if (pt == PT_BYTE_ARRAY) { const carquet_byte_array_t* ba = data; for (int64_t k = 0; k < nn; k++) { h = mc_mix(h, (uint64_t)ba[k].length); if (ba[k].length > 0) h = mc_mix(h, mc_hash(ba[k].data, (size_t)ba[k].length, 5)); } }
             else h = mc_mix(h, mc_hash(data, (size_t)nn * (size_t)ref_type_width(pt, 0), 4));
         }
@@ -129,7 +134,13 @@ static void judge(dfs_t* D, const xres* x) {
     if (x->status == SCH_DIVERGED) mc_harness_error("%s: replaying a prefix diverged (%s) — uncontrolled nondeterminism", scn_desc(s), x->msg);
     if (x->status == SCH_TOO_MANY_POINTS) mc_harness_error("%s: %s", scn_desc(s), x->msg);
     bool bad = x->status != SCH_OK || x->outcome != D->expected; if (!bad) return;
-    replay_must_match(s, x, "failing"); replay_must_match(s, x, "failing");        /* the same schedule must fail the same way, twice */
+    /* the same schedule must fail again, twice.  A replay that fails with ANOTHER wrong outcome is still a failure of the implementation (its output
+     * depends on memory it never wrote); a replay that passes means the harness does not control the execution, which is an error of the harness */
+    bool unstable = false;
+    for (int rep = 0; rep < 2; rep++) { uint8_t* ch = malloc((size_t)x->npoints + 1); for (int i = 0; i < x->npoints; i++) ch[i] = x->pt[i].chosen; run_exec(s, ch, x->npoints, 0, 0); N_EXEC--; N_REPLAY_CHECKS++; free(ch);
+        bool bad2 = TR->status != SCH_OK || TR->outcome != D->expected;
+        if (!bad2) mc_harness_error("%s sched=%s: a failing schedule passed when replayed — uncontrolled nondeterminism", scn_desc(s), sched_string_x(x));
+        if (TR->status != x->status || TR->outcome != x->outcome) unstable = true; }
     const char* ss = sched_string_x(x);
     if (x->status == SCH_DEADLOCK) snprintf(key, sizeof key, "deadlock.%s.%s", area, MODE_N[s->mode]);
     else if (x->status == SCH_MONITOR) snprintf(key, sizeof key, "zstd-context-shared.%s.%s", area, MODE_N[s->mode]);
@@ -137,7 +148,7 @@ static void judge(dfs_t* D, const xres* x) {
     else if (x->status == SCH_CHILD_DIED) snprintf(key, sizeof key, "crash.%s.%s", area, MODE_N[s->mode]);
     else snprintf(key, sizeof key, "outcome-differs.%s.%s.%s", area, MODE_N[s->mode], s->codec == CODEC_NONE ? "uncompressed" : "compressed");
     if (x->status != SCH_OK) mc_fail(key, "%s sched=%s racy=%s: %s", scn_desc(s), ss, racy_string(), x->msg);
-    else mc_fail(key, "%s sched=%s racy=%s: got [%s], the single-threaded run gives [%s]", scn_desc(s), ss, racy_string(), x->detail, D->expected_detail);
+    else mc_fail(key, "%s sched=%s racy=%s: got [%s]%s, the single-threaded run gives [%s]", scn_desc(s), ss, racy_string(), x->detail, unstable ? " (a different wrong result on each replay: the output contains bytes the reader never wrote)" : "", D->expected_detail);
     D->violations++;
 }
 static void explore(dfs_t* D, const uint8_t* prefix, int nprefix) {
@@ -167,7 +178,7 @@ static int LAST_ROUNDS, LAST_NOFIX;
 static void run_scenario(const scn_t* s) {
     LAST_ROUNDS = 0; LAST_NOFIX = 0;
     build_file(s); NRACY = 0; NPEND = 0;                      /* every case is self-contained: the promoted set is rebuilt per case */
-    dfs_t D; memset(&D, 0, sizeof D); D.s = s; D.detect = s->nt <= 4;
+    dfs_t D; memset(&D, 0, sizeof D); D.s = s; D.detect = s->nt <= 4 && s->shape < 4;     /* large pages exceed the detector's shadow table */
     run_exec(s, NULL, 0, 1, 0);
     if (TR->status != SCH_OK) { char key[120]; snprintf(key, sizeof key, "reference-run-failed.%s", MODE_N[s->mode]); mc_fail(key, "%s: %s", scn_desc(s), TR->msg); return; }
     D.expected = TR->outcome; snprintf(D.expected_detail, sizeof D.expected_detail, "%s", TR->detail);
@@ -189,20 +200,25 @@ static void enumerate(void) {
     TR = mmap(NULL, sizeof(sch_trace), PROT_READ | PROT_WRITE, MAP_SHARED | MAP_ANONYMOUS, -1, 0); if (TR == MAP_FAILED) mc_harness_error("mmap");
     const char* only_sched = getenv("C07_SCHED");
     static const int CODECS[] = { CODEC_NONE, CODEC_SNAPPY, CODEC_ZSTD };
-    int maxbound = 2;
+    int maxbound = 3;
     for (int bound = 0; bound <= maxbound; bound++) {
         char st[64]; snprintf(st, sizeof st, "deviation-bound-%d", bound); mc_stage(st);
-        for (int kind = 0; kind < 2; kind++) for (int mode = 0; mode < 3; mode++) for (int ci = 0; ci < 3; ci++) for (int nti = 0; nti < 6; nti++) for (int bsi = 0; bsi < 2; bsi++) for (int shape = 0; shape < 4; shape++) {
+        for (int kind = 0; kind < 2; kind++) for (int mode = 0; mode < 3; mode++) for (int ci = 0; ci < 3; ci++) for (int nti = 0; nti < 6; nti++) for (int bsi = 0; bsi < 2; bsi++) for (int shape = 0; shape < 6; shape++) {
             static const int NTA[] = { 2, 3, 4, 8, 16, 1 }; int nt = NTA[nti];
             scn_t s = { kind, mode, CODECS[ci], nt, bsi ? 12 : 4, shape, bound };
             if (nt == 1) continue;
+            if (bound == 3 && !(kind == 0 && mode == 0 && nt == 2 && ((shape == 5 && ci == 1 && bsi == 1) || (mc_thorough() && shape == 0 && ci == 0 && bsi == 0)))) continue;     /* three deviations: the two-column large-page file (a failed prefetch is retried in the main region, so a wrong result needs a third switch) */
+            if (shape >= 4) {                                                                                   /* large pages: one batch for the whole file, SNAPPY and ZSTD (page loads inside the team), 2-3 threads */
+                if (kind || bsi == 0 || ci == 0 || nt > 3 || mode == 1) continue; if (shape == 4 && bound > 1) continue; if (shape == 5 && (mode != 0 || (bound == 2 && !mc_thorough() && !(nt == 2 && ci == 1)))) continue;
+                s.bs = shape == 4 ? 70000 : 16000;
+            }
             bool base = shape == 0 && bsi == 0;                                                               /* base shape: 3 columns x 2 pages, batch smaller than a page */
             if (kind == 1) {                                                                                    /* B: 2-3 user threads, batch >= page, two shapes */
                 if (nt > 3 || bsi == 0 || shape > 1) continue;
                 if (bound == 2 && !(mc_thorough() && nt == 2 && shape == 0 && ((mode == 0 && ci == 0) || (mode == 1 && ci == 2)))) continue;
             } else {
                 if (nt >= 8 && (bound > 1 || !base)) continue;                                                 /* wide teams: c <= 1, base shape */
-                if (bound == 2) {
+                if (bound == 2 && shape < 4) {
                     if (nt > 4) continue;
                     if (!mc_thorough()) { if (!base) continue; if (!((nt == 2 && (mode == 0 || (mode == 1 && ci == 2) || (mode == 2 && ci == 1))) || (nt == 3 && mode == 0 && ci == 0))) continue; }
                     else { if (nt == 4 && !(base && mode == 0)) continue; if (nt == 3 && mode != 0 && !base) continue; }
